@@ -226,6 +226,9 @@ const (
 )
 
 func checkRows(n int) error {
+	if err := verifCheckRows(n); err != nil {
+		return err
+	}
 	if n < 0 {
 		return errors.New("negative")
 	}
